@@ -11,6 +11,11 @@ Streams
                  AST instrumentation that logs every name read and every assigned constant);
              (c) partition: asking from any reported occurrence yields the same set;
              (d) renaming the new name back restores the text byte for byte.
+  multimod   the same clauses on generated multi-module projects on disk (gen/multimod.py,
+             props/c05_multimod.py): root modules, a package with sub-modules and re-exports,
+             every import form, aliases, the same function name defined in two modules and tied
+             together by try/except-ImportError or if/else imports; references across files,
+             announced file/package renames, behaviour = output of `python -m <main>`.
 """
 import ast
 import os
@@ -18,8 +23,10 @@ import os
 import common
 from common import short
 from gen import scopes as G
+from gen import multimod as GM
+from props import c05_multimod as MM
 
-MODELS = ['Scopes', 'Refs']
+MODELS = ['Scopes', 'Refs', 'RefsMulti']
 LEAN_TARGETS = ['JediModel.Props.C05', 'JediModel.Drivers.C05']
 MANIFEST = dict(
     text='Theorems: refs_sound_partial (every reported reference denotes the variable under the cursor, for '
@@ -32,9 +39,18 @@ MANIFEST = dict(
          'get_references with the model on generated programs (exhaustive small scope + random). The behavioural '
          'clauses (same behaviour, partition, rename-back) are decided by the direct oracle that executes the '
          'programs; the reference-set = variable-occurrence-set statement is false of the unchanged code '
-         '(kernel-checked witnesses, known findings).',
-    note='Modelled not verified: single module, the Scopes fragment (straight-line bodies, no imports); file/package '
-         'renames and multi-module reference search are covered by the direct oracle only.',
+         '(kernel-checked witnesses, known findings). Several modules (Model/RefsMulti: tokens as _find_names answers, '
+         'modules as token lists): scan_modules_flat (module boundaries are invisible to the scan), '
+         'late_merge_across_modules (a token that did not match when its module was scanned is reported as soon as a '
+         'token of a LATER module ties it to a defining name), both stated over the translator constant that records '
+         'where find_references creates the map of non-matching references (reset_per_module_loses_references: the '
+         'kernel-checked counter-model for the other placement), flow_analysis_off_then_restored. Direct oracle on '
+         'generated multi-module projects on disk (every import form, aliases, re-exports, try/except and if/else ties, '
+         'file and package renames): exactness, behaviour, partition, rename-back.',
+    note='Modelled not verified: the Scopes fragment (straight-line bodies, no imports) for one module; for several '
+         'modules only the scan loop is modelled (what goto answers for a token across imports is an input of the model); '
+         'import resolution, file/package renames and the project-wide file search are covered by the direct oracle on '
+         'generated projects (stream multimod) only.',
     technique='Lean 4 proof over hand-written model + differential correspondence + execution oracle',
     design='5.C05')
 
@@ -307,13 +323,89 @@ def programs(ctx):
     return out
 
 
+def analyse_any(item):
+    """worker entry: one pool serves the three streams"""
+    kind, x = item
+    if kind == 'prog':
+        return analyse(x)
+    if kind == 'attr':
+        return analyse_attr(x)
+    return MM.analyse_project(x)
+
+
+COST = {'prog': 1, 'attr': 12, 'mm': 30}
+
+
+def balanced(items, jobs=14):
+    """order `items` so that the contiguous chunks common.parallel_map cuts carry about the same
+    estimated cost; returns (ordered items, positions) with ordered[k] = items[positions[k]]"""
+    n = len(items)
+    jobs = max(1, min(jobs, (n + 19) // 20))
+    size = (n + jobs - 1) // jobs
+    caps = [min(size, max(0, n - k * size)) for k in range(jobs)]
+    bins = [[] for _ in range(jobs)]
+    load = [0] * jobs
+    for i in sorted(range(n), key=lambda i: -COST[items[i][0]]):
+        k = min((k for k in range(jobs) if len(bins[k]) < caps[k]), key=lambda k: load[k])
+        bins[k].append(i)
+        load[k] += COST[items[i][0]]
+    pos = [i for b in bins for i in b]
+    return [items[i] for i in pos], pos
+
+
+def multimod_items(ctx):
+    """stratified: every way of tying two definitions together in every place, every import form"""
+    rng = ctx.subrng('multimod')
+    items = []
+    ties = ['tie-try', 'tie-try-local', 'tie-try', 'tie-try-local', 'tie-if']
+    wheres = ['main', 'sub', 'upper']
+    n_tie, n_free = ctx.size(20, 300), ctx.size(10, 150)
+    for i in range(n_tie):
+        plan = {'tie': ties[i % len(ties)], 'tie_where': wheres[(i // len(ties) + i) % 3]}
+        items.append({'project': GM.gen_project(rng, plan), 'tag': 'tie', 'economy': ctx.quick})
+    forms = ['from-name', 'from-name-as', 'import-module', 'import-module-as', 'import-dotted',
+             'from-pkg-import-sub', 'from-pkg-import-sub-as', 'relative-sub', 'relative-name']
+    for i in range(n_free):
+        plan = {'import_form': forms[i % len(forms)]}
+        items.append({'project': GM.gen_project(rng, plan), 'tag': 'free', 'economy': ctx.quick})
+    for w in MM.WITNESSES:
+        items.append({'project': w, 'tag': 'witness', 'economy': False})
+    for w in corpus_projects():
+        items.append({'project': w, 'tag': 'corpus', 'economy': False})
+    return items
+
+
+def corpus_projects():
+    import glob
+    import json
+    out = []
+    for p in sorted(glob.glob(os.path.join(common.CORPUS_DIR, 'C05', '*.json'))):
+        with open(p, encoding='utf-8') as f:
+            d = json.load(f)
+        if 'files' in d:
+            out.append({'files': d['files'], 'main': d['main'], 'features': ['corpus:' + os.path.basename(p)]})
+    return out
+
+
 def run(ctx):
     os.makedirs(EMPTY_PROJECT, exist_ok=True)
     progs = programs(ctx)
-    if len(progs) > 200:
-        outs = [fix_keys(o) for o in common.parallel_map('props.c05', 'analyse', [p for p, _ in progs])]
-    else:
-        outs = [analyse(p) for p, _ in progs]
+    attr_seeds = ['%s-attr-%d' % (ctx.seed, i) for i in range(ctx.size(12, 400))]
+    mm_items = multimod_items(ctx)
+    items = [['prog', p] for p, _ in progs] + [['attr', s_] for s_ in attr_seeds] + [['mm', it] for it in mm_items]
+    ordered, pos = balanced(items)
+    import time
+    t_pool = time.time()
+    res = common.parallel_map('props.c05', 'analyse_any', ordered)
+    ctx.notes.append('worker pool (%d items: %d programs, %d attribute seeds, %d projects): %.1f s wall, load %s'
+                     % (len(items), len(progs), len(attr_seeds), len(mm_items), time.time() - t_pool,
+                        open('/proc/loadavg').read().split()[0]))
+    results = [None] * len(items)
+    for k, i in enumerate(pos):
+        results[i] = res[k]
+    outs = [fix_keys(o) for o in results[:len(progs)]]
+    attr_results = results[len(progs):len(progs) + len(attr_seeds)]
+    mm_results = results[len(progs) + len(attr_seeds):]
     reqs = []
     how = 'jedi.Script(source).rename(line, column, new_name=...) / get_references; see harness/props/c05.py:analyse'
     for out, (_, tag) in zip(outs, progs):
@@ -356,14 +448,48 @@ def run(ctx):
     else:
         ctx.notes.append('model did not build: correspondence skipped, oracle only')
     # ---- attribute programs: beyond the Scopes fragment, judged by the direct oracle only
-    seeds = ['%s-attr-%d' % (ctx.seed, i) for i in range(ctx.size(12, 400))]
-    for recs in common.parallel_map('props.c05', 'analyse_attr', seeds):
+    for recs in attr_results:
         for rec in recs:
             ctx.count('attr', (rec['case']['source'], rec['case']['line'], rec['case']['column']), nontrivial=True,
                       sample=rec['case'])
             for what, exp, obs in rec['fails']:
                 ctx.fail('oracle', what, rec['case'], expected=exp, observed=obs, how=how)
+    # ---- multi-module projects on disk: direct oracle only
+    mm_how = ('project written to a scratch directory; jedi.Script(code, path=..., project=jedi.Project(root))'
+              '.get_references / .rename at (rel, line, column); `./check C05 --replay <file>` re-runs the clauses')
+    for it, out in zip(mm_items, mm_results):
+        proj = it['project']
+        for b in out['raised']:
+            ctx.count('raised', None, nontrivial=False, bucket='multimod:' + b)
+        if out['skipped']:
+            ctx.count('multimod-project', None, nontrivial=False, bucket='skipped: ' + out['skipped'][:40])
+            continue
+        for f in out['features']:
+            ctx.count('multimod-project', (sorted(proj['files'].items()), f), nontrivial=True, bucket=f)
+        for st in out['starts']:
+            rel, line, col, name = st['start']
+            case = {'files': proj['files'], 'main': proj['main'], 'rel': rel, 'line': line, 'column': col,
+                    'name': name, 'new_name': GM.FRESH, 'shape': st['shape'], 'origin': it['tag']}
+            ctx.count('multimod/' + it['tag'], (sorted(proj['files'].items()), rel, line, col),
+                      nontrivial=st['n_files'] > 1 or st['n_mods'] > 0,
+                      bucket='files=%d%s' % (st['n_files'], '+module' if st['n_mods'] else ''),
+                      sample={k: v for k, v in case.items()})
+            for what, exp, obs in st['fails']:
+                ctx.fail('multimod', what, case, expected=exp, observed=obs, how=mm_how)
+    try:
+        from translator import gen_c05
+        lim = gen_c05.limits(common.REPO)
+        if not (GM.MIN_GLOBAL_NAME_LEN > lim['short_name_limit'] and GM.MAX_FILES < lim['parsed_file_limit']):
+            ctx.notes.append('generated projects exceed the search limits of the checked source: %r' % lim)
+    except Exception as e:
+        ctx.notes.append('search limits not readable from the source: %r' % e)
     ctx.obligations['assumptions'] = [
+        'stream multimod (projects on disk, imports, aliases, file/package renames) is judged by the direct oracle; '
+        'its Lean side is the abstract scan over several modules (Model/RefsMulti: tokens as _find_names answers), tied '
+        'to the source by the position of `non_matching_reference_maps = {}` relative to the loop over modules',
+        'multimod behaviour = (exit code, stdout, class of the terminating exception) of `python -B -S -m <main>`; '
+        'names of at most %d characters and projects of more than %d files are outside the stream (documented search '
+        'limits of references.py)' % (GM.MIN_GLOBAL_NAME_LEN - 1, GM.MAX_FILES),
         'stream attr (attributes whose spelling coincides with parameters/locals) has no Lean model: direct oracle only',
         'fragment and flat table as for C03 (harness/gen/scopes.py); the text-level rename model is '
         '"replace the value of exactly the leaves in refs" which Props.C05.render_rename proves equal to parso\'s render',
@@ -391,6 +517,8 @@ WITNESSES = [
 def replay(ctx, payload):
     import jedi
     inp = payload['input']
+    if 'files' in inp:
+        return MM.replay(payload)
     s = jedi.Script(inp['source'], project=jedi.Project(EMPTY_PROJECT))
     print(inp['source'])
     print('references:', [(d.line, d.column) for d in s.get_references(inp['line'], inp['column'], scope='file')])
